@@ -39,6 +39,28 @@ class Under(io.BytesIO):
         return n
 
 
+def _pause_limit(obj):
+    """The cap on the sleep debt the limiter carries: the 'fixed burst allowance' in seconds (0.5 s unless the code says otherwise)."""
+    v = getattr(obj, 'PAUSE_LIMIT', None)
+    return v if isinstance(v, (int, float)) and v > 0 else 0.5
+
+
+class _ThreadingShim:
+    """Stands in for the `threading` module inside replicat.utils while a program runs under the baton."""
+
+    def __init__(self, real, baton):
+        self._real, self._baton = real, baton
+
+    def Lock(self):
+        return VLock(self._baton)
+
+    def RLock(self):
+        return VLock(self._baton, reentrant=True)
+
+    def __getattr__(self, name):
+        return getattr(self._real, name)
+
+
 class Check(CheckBase):
     property_id = 'C20'
     evaluations_counter = 'programs'
@@ -95,7 +117,7 @@ class Check(CheckBase):
                     unmet.append(f'(streams={n}, latency={lat}) not exercised')
         if c.get('events', 0) < 20000:
             unmet.append('too few pass-through events')
-        if c.get('debt_invariant_evaluations', 0) < 5000:
+        if c.get('debt_hook_present', 0) and c.get('debt_invariant_evaluations', 0) < 5000:
             unmet.append('debt invariant evaluated too rarely')
         if c.get('command_runs', 0) < 12:
             unmet.append('too few rate-limited command runs')
@@ -110,26 +132,32 @@ class Check(CheckBase):
         import replicat.utils as ru
         L, N, direction = case['limit'], case['streams'], case['direction']
         baton = Baton(seed, overshoot=case['overshoot'])
-        orig_time = ru.time
+        orig_time, orig_threading = ru.time, ru.threading
         ru.time = baton
+        # every lock the limiter creates (now or lazily) is a scheduler-aware one, wherever it keeps it
+        ru.threading = _ThreadingShim(orig_threading, baton)
         limiter = ru.RateLimitedIO(L)
-        limiter._read_lock, limiter._write_lock = VLock(baton), VLock(baton)
         debt_checks = [0]
         debt_viol = []
         cls = ru.RateLimitedIO
         orig_pr, orig_pw = cls.pause_reads, cls.pause_writes
 
+        # supplementary invariant at a hook, only where this layout of the limiter exists (the window oracle decides)
         def pause_reads(self_, seconds):
             orig_pr(self_, seconds)
-            debt_checks[0] += 1
-            if self_._read_sleep_amortised > self_.PAUSE_LIMIT + 1e-9:
-                debt_viol.append(self_._read_sleep_amortised)
+            debt = getattr(self_, '_read_sleep_amortised', None)
+            if debt is not None:
+                debt_checks[0] += 1
+                if debt > _pause_limit(self_) + 1e-9:
+                    debt_viol.append(debt)
 
         def pause_writes(self_, seconds):
             orig_pw(self_, seconds)
-            debt_checks[0] += 1
-            if self_._write_sleep_amortised > self_.PAUSE_LIMIT + 1e-9:
-                debt_viol.append(self_._write_sleep_amortised)
+            debt = getattr(self_, '_write_sleep_amortised', None)
+            if debt is not None:
+                debt_checks[0] += 1
+                if debt > _pause_limit(self_) + 1e-9:
+                    debt_viol.append(debt)
         cls.pause_reads, cls.pause_writes = pause_reads, pause_writes
         dmax_allowed = max(L // 4, 1)
         derived = max(L // (16 * N), 1)
@@ -196,12 +224,12 @@ class Check(CheckBase):
         try:
             baton.run([stream_fn(s) for s in range(N)])
         finally:
-            ru.time = orig_time
+            ru.time, ru.threading = orig_time, orig_threading
             cls.pause_reads, cls.pause_writes = orig_pr, orig_pw
         events = [(t, n) for t, n in log if n]
         info = {'style': style, 'dmax': max(sizes_used or [1]), 'intact': all(results[s] == payloads[s] for s in range(N)),
                 'debt_checks': debt_checks[0], 'debt_viol': debt_viol, 'sleeps': len(baton.sleeps), 'end': baton.now,
-                'pause_limit': limiter.PAUSE_LIMIT}
+                'pause_limit': _pause_limit(limiter), 'debt_hook': hasattr(limiter, '_read_sleep_amortised')}
         return events, info
 
     def _bound(self, case):
@@ -219,6 +247,7 @@ class Check(CheckBase):
             counters['programs'] += 1
             counters['events'] += len(events)
             counters['debt_invariant_evaluations'] += info['debt_checks']
+            counters['debt_hook_present'] = max(counters.get('debt_hook_present', 0), int(info['debt_hook']))
             allowance = info['pause_limit'] * L + N * info['dmax'] + case['overshoot'] * L + 1e-6 * L + 1
             excess, i, j, ev = worst_window(events, L)
             rel = excess / allowance if allowance else 0
@@ -408,7 +437,7 @@ class Check(CheckBase):
                                   f'worth ({max(L // 4, 1)}); the commands document limit // (16 * concurrency) = {derived}',
                           'mechanism': None, 'witness': {'sizes': sorted(sizes)[:5]}})
             dmax = max(n for _, n in events)
-            allowance = ru.RateLimitedIO.PAUSE_LIMIT * L + dmax + 1e-6 * L + 1
+            allowance = _pause_limit(ru.RateLimitedIO) * L + dmax + 1e-6 * L + 1
             excess, i, j, ev = worst_window(events, L)
             if excess > allowance:
                 t0, t1 = ev[i][0], ev[j][0]
